@@ -219,6 +219,9 @@ def gen(rng, solver=None):
             case["use_bounds"] = rng.random() < 0.5
         if s in ("differential_evolution", "particle_swarm"):
             case.update(pop=rng.choice([6, 8, 10]), strategy=rng.choice(["rand/1", "best/1", "rand/2"]))
+            if rng.random() < 0.5:         # small populations (differential_evolution pads them to 4; the /2 strategies need >= 6),
+                # short runs: what was evaluated while setting up must not be forgotten
+                case.update(pop=rng.choice([1, 2, 3, 3, 4, 5]), strategy=rng.choice(["rand/1", "best/1"]), max_iter=rng.choice([0, 1, 1, 2, 4]))
         if s == "bayesian_opt":
             case.update(max_iter=rng.choice([1, 3, 6]), n_initial=rng.choice([2, 4]), acquisition=rng.choice(["ei", "ucb"]))
         if s == "nelder_mead":
